@@ -129,8 +129,13 @@ def search(res, tier, seed, deep=False):
             data = np.where(rs.rand(N) < dry, 0.0, rs.gamma(shape, scale, N) + 1e-3)
             if (data > 0).sum() < 10 or (data == 0).sum() < 1: continue
             wet = np.sort(data[data > 0]); inp = dict(dry=dry, shape=shape, scale=scale, n=N, seed=seed, i=i)
-            for rand in (True, False):
-                m = gen_PrecipitationHurdleModel(cdf_randomization=rand)
+            for rand in (True, False, "floc"):
+                if rand == "floc":
+                    # an amounts distribution with a non-zero location (all wet values exceed it): dry values still come back as 0
+                    floc = float(wet[0]) * 0.5
+                    m = gen_PrecipitationHurdleModel(cdf_randomization=False, fit_kwds={"floc": floc}); rand = False
+                else:
+                    m = gen_PrecipitationHurdleModel(cdf_randomization=rand)
                 fit = m.fit(data)
                 res.case(("hurdle", rand, dry))
                 if abs(fit[0] - (data == 0).mean()) > 1e-12:
